@@ -51,6 +51,10 @@ class OutsideBlock(Exception):
     """a thread of the code under test blocks on something that is not one of the doubles (or computes for ever)"""
 
 
+class SetupBlocks(Exception):
+    """code run by the harness thread itself (socket set-up, a terminate() before the calls) would block"""
+
+
 class Abort(BaseException):
     """raised inside a parked thread when an execution is torn down"""
 
@@ -125,7 +129,7 @@ class SLock:
         t = self.sched.current
         if t is None or t.abort:                 # set-up code of the harness / a thread being torn down
             if t is None and self.owner not in (None, "main"):
-                raise Infra("term_sched: the harness thread needs lock %s held by %s" % (self.name, self.owner.name))
+                raise SetupBlocks("the set-up code needs lock %s held by %s" % (self.name, self.owner.name))
             if t is None:
                 self.owner = "main"
                 self.depth += 1
@@ -191,7 +195,7 @@ class SCondition:
     def wait(self, timeout=None):
         t = self.sched.current
         if t is None:
-            raise Infra("term_sched: the harness thread itself would block in %s.wait()" % self.name)
+            raise SetupBlocks("the set-up code (or a terminate() run before the calls) waits on %s" % self.name)
         if t.abort:
             raise Abort()
         if self.lock.owner is not t:
